@@ -856,3 +856,40 @@ End Depth.
 Lemma gen_depth_bounded vr o sch ann : fmap_typed o ->
   forall mid m, rapid_in_range vr o sch ann mid m = true -> (val_depth m <= 12)%nat.
 Proof. intros Hf mid m H. eapply (range_depth vr o sch ann Hf top_fuel); [unfold top_fuel; lia|exact H]. Qed.
+
+(* ---- the tape-driven generator model stays inside the range: samples (not a general proof) -------- *)
+(* 0: T { int32 a; string s; repeated T kids; map<bool,T> m; E e; Timestamp ts; FieldMask fm; oneof { uint32 x; T y };
+          Any any; repeated Any anys; repeated sint64 zs; Duration d }    1: Timestamp  2: FieldMask  3: Any  4: Duration *)
+Definition sch_demo : schema :=
+ [ {| m_fields := [fld 1 (TScalar KInt32) Singular; fld 2 (TScalar KString) Singular; fld 3 (TMsg 0) (Rep false); fld 4 (TMsg 0) (MapOf KBool);
+                   fld 5 (TScalar KEnum) Singular; fld 6 (TMsg 1) Singular; fld 7 (TMsg 2) Singular; fld 8 (TScalar KUint32) (Member 0); fld 9 (TMsg 0) (Member 0);
+                   fld 10 (TMsg 3) Singular; fld 11 (TMsg 3) (Rep false); fld 12 (TScalar KSint64) (Rep true); fld 13 (TMsg 4) Singular];
+      m_oneofs := 1; m_impl := Pulsar |};
+   md_of [fld 1 (TScalar KInt64) Singular; fld 2 (TScalar KInt32) Singular];
+   md_of [fld 1 (TScalar KString) (Rep false)];
+   md_any;
+   md_of [fld 1 (TScalar KInt64) Singular; fld 2 (TScalar KInt32) Singular] ].
+Definition ann_demo : annots :=
+ [ {| a_name := [x54]; a_wkt := WNone;
+      a_fields := [fa_plain; fa_plain; fa_plain; fa_plain; {| a_enum := [0; 5; -3]%Z; a_iface := None |}; fa_plain; fa_plain; fa_plain; fa_plain;
+                   {| a_enum := []; a_iface := Some 0%nat |}; fa_plain; fa_plain; fa_plain] |};
+   {| a_name := [x55]; a_wkt := WTimestamp; a_fields := [fa_plain; fa_plain] |};
+   {| a_name := [x56]; a_wkt := WFieldMask; a_fields := [fa_plain] |};
+   ma_any;
+   {| a_name := [x57]; a_wkt := WDuration; a_fields := [fa_plain; fa_plain] |} ].
+Fixpoint lcg (n : nat) (x : N) : tape :=
+  match n with O => [] | S k => (x / 65536) :: lcg k ((x * 6364136223846793005 + 1442695040888963407) mod 18446744073709551616) end.
+Definition mk_opts (nel dn : bool) (any : list nat) (fm : nat) : gopts :=
+  {| o_no_empty := nel; o_disallow_nil := dn; o_any := any; o_hints := [Some 1%nat]; o_fmap := fmap_of_id fm |}.
+Definition demo_opts : list gopts :=
+  [ mk_opts false false [] 0; mk_opts true false [1; 4; 3]%nat 1; mk_opts false false [0; 2]%nat 2; mk_opts true false [] 2 ].
+Definition sample_ok (vr : variant) (o : gopts) (seed : N) : bool :=
+  match gen vr o sch_demo ann_demo 0 (lcg 1500 seed) with
+  | Ok m => rapid_in_range vr o sch_demo ann_demo 0 m && wt_msg sch_demo 0 m
+  | _ => false
+  end.
+Lemma gen_in_range_samples :
+  ann_ok sch_demo ann_demo = true /\
+  forallb (fun o => forallb (sample_ok repaired o) [1; 2; 3]) demo_opts = true /\
+  forallb (sample_ok current (mk_opts true true [] 0)) [4; 5] = true.
+Proof. vm_compute. repeat split; reflexivity. Qed.
